@@ -17,9 +17,9 @@ from simkit.harness import History, LoopConfig, SimRun, anyio
 
 from anyio import (ClosedResourceError, DelimiterNotFound, EndOfStream, IncompleteRead, create_task_group,
                    get_cancelled_exc_class, move_on_after, sleep)
-from anyio.abc import ByteReceiveStream, ObjectReceiveStream, ObjectSendStream
-from anyio.streams.buffered import BufferedByteReceiveStream
-from anyio.streams.text import TextReceiveStream, TextSendStream, TextStream
+from anyio.abc import ByteReceiveStream, ByteStream, ObjectReceiveStream, ObjectSendStream, ObjectStream
+from anyio.streams.buffered import BufferedByteReceiveStream, BufferedByteStream, BufferedConnectable
+from anyio.streams.text import TextConnectable, TextReceiveStream, TextSendStream, TextStream
 
 ALPHA = b"ab|"
 DELIMS = [b"|", b"||", b"a|", b"ab"]
@@ -100,6 +100,58 @@ class Collect(ObjectSendStream):
         pass
 
 
+class DuplexByte(ByteStream):
+    """A bidirectional byte stream: receives from a ByteWire, collects what is sent."""
+
+    def __init__(self, wire, sink=None):
+        self.wire = wire
+        self.sink = sink or Collect()
+
+    async def receive(self, max_bytes=65536):
+        return await self.wire.receive(max_bytes)
+
+    async def send(self, item):
+        await self.sink.send(item)
+
+    async def send_eof(self):
+        pass
+
+    async def aclose(self):
+        pass
+
+
+class DuplexObj(ObjectStream):
+    """The same over an object stream of bytes."""
+
+    def __init__(self, wire, sink=None):
+        self.wire = wire
+        self.sink = sink or Collect()
+
+    async def receive(self):
+        return await self.wire.receive()
+
+    async def send(self, item):
+        await self.sink.send(item)
+
+    async def send_eof(self):
+        pass
+
+    async def aclose(self):
+        pass
+
+
+class OneShotConnectable:
+    def __init__(self, stream):
+        self.stream = stream
+
+    async def connect(self):
+        return self.stream
+
+
+def duplex(wire, sink=None):
+    return (DuplexByte if isinstance(wire, ByteWire) else DuplexObj)(wire, sink)
+
+
 def gen_ops(rng, n):
     ops = []
     for _ in range(n):
@@ -136,7 +188,13 @@ class BufRun:
         c = self.case
         data = bytes(c["data"])
         wire = (ByteWire if c["wire"] == "byte" else ObjWire)(data, c["chunks"], c["delays"], self.faults)
-        b = BufferedByteReceiveStream(wire)
+        via = c.get("via", "direct")       # the same receive API through its three constructors
+        if via == "stream":
+            b = BufferedByteStream(duplex(wire))
+        elif via == "connectable":
+            b = await BufferedConnectable(OneShotConnectable(duplex(wire))).connect()
+        else:
+            b = BufferedByteReceiveStream(wire)
         logical = bytearray(data)       # the logical stream: fed bytes are inserted after the buffered ones
         out = bytearray()               # handed out, delimiters included
         Cancelled = get_cancelled_exc_class()
@@ -275,19 +333,27 @@ class TextRun:
         if c["mode"] == "receive":
             raw = text.encode(enc)
             wire = (ByteWire if c["wire"] == "byte" else ObjWire)(raw, c["chunks"], c["delays"], self.faults)
-            out = await self.drain(TextReceiveStream(wire, encoding=enc))
+            via = c.get("via", "direct")
+            if via == "stream":
+                rs = TextStream(duplex(wire), encoding=enc)
+            elif via == "connectable" and enc == "utf-8":
+                rs = await TextConnectable(OneShotConnectable(duplex(wire))).connect()
+            else:
+                rs = TextReceiveStream(wire, encoding=enc)
+            out = await self.drain(rs)
             self.h.rec("text", tuple(out))
             if "".join(out) != raw.decode(enc):
                 self.v("text_receive", f"received {out!r}, the input decodes to {raw.decode(enc)!r}")
         else:
             sink = Collect()
-            ts = TextSendStream(sink, encoding=enc)
+            via = c.get("via", "direct")
+            ts = TextStream(duplex(ObjWire(b"", [1], [0], self.faults), sink), encoding=enc) if via != "direct" else TextSendStream(sink, encoding=enc)
             pieces = c["pieces"]
             for p in pieces:
                 await ts.send(p)
             raw = b"".join(sink.chunks)
             wire = (ByteWire if c["wire"] == "byte" else ObjWire)(raw, c["chunks"], c["delays"], self.faults)
-            out = await self.drain(TextReceiveStream(wire, encoding=enc))
+            out = await self.drain(TextStream(duplex(wire), encoding=enc) if via != "direct" else TextReceiveStream(wire, encoding=enc))
             self.h.rec("roundtrip", tuple(out))
             if "".join(out) != "".join(pieces):
                 self.v("text_roundtrip", f"sent {pieces!r} through TextSendStream, TextReceiveStream yields {''.join(out)!r}")
@@ -362,6 +428,7 @@ class BufferedCheck:
         chunks = [rng.choice([1, 1, 2, 3, 5, 1000]) for _ in range(nchunks)]
         if wire == "obj" and rng.random() < 0.3:
             chunks.insert(rng.randint(0, len(chunks)), 0)      # an empty chunk from an object stream of bytes
+        base["via"] = rng.choice(["direct", "direct", "stream", "connectable"])
         base.update({"engine": "buffered", "type": "buf", "data": list(data), "wire": wire,
                      "chunks": chunks,
                      "delays": [rng.choice([0, 0, 0.125, 0.25]) for _ in range(rng.randint(1, 4))],
@@ -388,6 +455,7 @@ class BufferedCheck:
             # an object stream of bytes may deliver empty chunks, also in the middle of a multi-byte character
             chunks = list(chunks)
             chunks.insert(rng.randint(0, len(chunks)), 0)
+        base["via"] = rng.choice(["direct", "direct", "stream", "connectable"])
         base.update({"engine": "buffered", "type": "text", "text": text, "encoding": enc, "mode": mode,
                      "wire": wire, "chunks": chunks,
                      "delays": [rng.choice([0, 0, 0.125]) for _ in range(rng.randint(1, 3))]})
